@@ -21,8 +21,57 @@ META = {
 }
 
 
+def scripted_chooser(events, phases):
+    """phases: list of (thread, done) - run `thread` until done(events, enabled) holds; while `thread` is not enabled run the lowest other
+    thread; after the last phase: first enabled thread"""
+    st = {"k": 0}
+
+    def chooser(en, step):
+        while st["k"] < len(phases):
+            th, done = phases[st["k"]]
+            if done(events, en):
+                st["k"] += 1
+                continue
+            if th in en:
+                return th
+            rest = [t for t in en if t != th]
+            return rest[0] if rest else en[0]
+        return en[0]
+    return chooser
+
+
+def witness_phase(ctx):
+    """the schedule of c14_prompt_refuted (props/C14.v: stall_schedule) driven on the REAL code: W = client 0, B = background serving
+    thread 1. B reads W's reply and releases the receive lock; W, not ready yet, takes the free lock and polls an empty stream; B
+    notifies and dispatches. On a tree with this window W returns only when its poll times out (lateness > 0: finding F5); on a tree
+    without it W returns at once."""
+    ev = []
+    has = lambda pred: (lambda events, en: any(pred(e) for e in events))
+    phases = [(0, has(lambda e: e[0] == "issue" and e[1] == 0)),
+              ("P", has(lambda e: e[0] == "answer")),
+              (1, has(lambda e: e[0] == "step" and e[1] == 1 and e[2] == "release")),
+              (0, lambda events, en: 0 not in en),                                   # W runs until it blocks (in poll, holding the lock)
+              (1, has(lambda e: e[0] == "step" and e[1] == 1 and e[2] == "dispatch"))]
+    out = base.scenario(1, True, [0], scripted_chooser(ev, phases), events_out=ev)
+    case = {"witness": "stall_schedule", "clients": 1, "bg": True, "order": [0], "seed": 0, "stick": 0.0}
+    ctx.case(("witness", "stall_schedule"), nontrivial=True, sample={"case": case, "late": out["late"], "results": out["results"]})
+    ctx.count("witness-schedule-of-c14_prompt_refuted")
+    kinds = [(e[1], e[2]) for e in ev if e[0] == "step" and e[1] in (0, 1)]
+    want_prefix = [(1, "looptest"), (1, "acquire"), (1, "read"), (1, "release"), (0, "looptest"), (0, "acquire")]
+    followed = [k for k in kinds if k in want_prefix][:len(want_prefix)] == want_prefix
+    ctx.coverage_extra["witness_schedule_followed"] = followed
+    if not followed:
+        ctx.tie_broken("correspondence:witness-schedule", "the real code did not follow the schedule of stall_schedule: steps %s" % kinds[:14])
+    base.oracle14(ctx, case, out, 1)
+
+
 def run(ctx):
     base.run_plans(ctx, "C14")
+    witness_phase(ctx)
 
 
-replay = base.replay
+def replay(ctx, rep):
+    if rep["case"].get("witness"):
+        witness_phase(ctx)
+        return
+    base.replay(ctx, rep)
